@@ -121,6 +121,29 @@ def check_trace(ctx, cfg, tr, res, limit, needy_rule=True):
             if needy and e["out"] is e["in"]:
                 ctx.violation("impl-violation", "a cluster has fewer than 2 points but repopulation did nothing",
                               cfg, dict(sig, clause="repop-only-if-needy"))
+        # the optimise phase gives every cluster the solver's output for ITS OWN covariance (whatever order the tasks
+        # completed in): match this round's solver calls to clusters by the covariance they were handed
+        ev_o = evs[-2]
+        if ev_o["phase"] == "opt" and ev_o.get("out_snap") is not None and tr.admm_calls and ev_o.get("in_before"):
+            from fast_ticc import matrix_compression as _mc
+            Kc = len(ev_o["out_snap"]["clusters"])
+            calls = tr.admm_calls[j * Kc:(j + 1) * Kc]
+            eps_ = float(ev_o["out"].arguments.min_meaningful_covariance)
+            for k in range(Kc):
+                emp = ev_o["in_before"]["clusters"][k]["emp"]
+                mine = [c_ for c_ in calls if c_["cov_copy"] is not None and emp is not None
+                        and np.shape(c_["cov_copy"]) == np.shape(emp) and np.array_equal(c_["cov_copy"], emp)]
+                if len(mine) != 1 or mine[0]["result"] is None or len(calls) != Kc:
+                    continue          # identical covariances (or an untraced solver): nothing to tell apart
+                want = np.atleast_2d(_mc.reinflate_matrix(np.array(mine[0]["result"], copy=True)))
+                if eps_ > 0:
+                    want = np.where(np.abs(want) < eps_, 0.0, want)
+                got = np.atleast_2d(ev_o["out_snap"]["clusters"][k]["train"])
+                if got.shape != want.shape or not np.array_equal(got, want):
+                    ctx.violation("impl-violation", f"round {j}: the MRF stored for cluster {k} is not the solver's output for "
+                                  f"cluster {k}'s own covariance", cfg, dict(sig, clause="own-fit"))
+                    return None
+            ctx.count("opt_phase_own_fit_checked")
         prev_out = evs[-1]["out"]
         labs.append([int(x) for x in prev_out.point_labels])
     if not (1 <= n <= limit):
@@ -162,6 +185,11 @@ def run(ctx):
         scripts = [c for c in ctx.corpus if c.get("scripted")] + [gen_script(ctx.rng) for _ in range(40 if ctx.quick() else 500)]
         cfgs = [c for c in ctx.corpus if not c.get("scripted")] + [tu.gen_config(ctx.rng) for _ in range(16 if ctx.quick() else 200)]
         for i, c in enumerate(cfgs):
+            if i % 3 == 2:
+                # the solver tasks of a round complete OUT OF ORDER (as with a real multi-worker pool); >= 3 clusters so
+                # that a later task can be done while an earlier one is still running
+                c["completion"] = ["reverse", "rotate", ctx.rng.randrange(1000)][(i // 3) % 3]
+                c["K"] = max(3, c["K"])
             if i % 2 == 1 and not c["joint"] and "beta_vector_seed" not in c:
                 c["beta_vector_seed"] = ctx.rng.randrange(2 ** 31)     # per-pair switching cost with zeros mixed in
                 c["regimes"] = 4                                       # more regimes than clusters: labels are contested
@@ -266,7 +294,7 @@ def run(ctx):
                         ctx.count("returned_labelling_optimality_checked")
                 except np.linalg.LinAlgError:
                     pass
-        if err is None and tr is not None and len(whole_lines) < (8 if ctx.quick() else 60):
+        if err is None and tr is not None and cfg.get("completion") is None and len(whole_lines) < (8 if ctx.quick() else 60):
             from fast_ticc import data_preparation as dp
             stacked = dp.stack_training_data_multiple_series(series, cfg["W"])
             if stacked.shape[0] * stacked.shape[1] <= 1500:
